@@ -1091,7 +1091,7 @@ def c13_plan(seed: int, n: int):
     base_paths = gen.all_paths(["a", "b"], 3)
     ext_paths = gen.all_paths(["a", "b", "a_b", "x"], 3)
     jobs = []
-    planned = {"isolated": 0, "isolated-ext": 0, "lower": 0, "capitalized": 0, "circular": 0, "combined": 0}
+    planned = {"isolated": 0, "isolated-ext": 0, "lower": 0, "camel": 0, "capitalized": 0, "circular": 0, "combined": 0}
 
     def bucket(pairs, cap, keyfn):
         groups: Dict[tuple, list] = {}
@@ -1123,6 +1123,11 @@ def c13_plan(seed: int, n: int):
     for s, d in sel3:
         jobs.append(("isolated", "lower", sorted({s, d}), [(s, d)]))
     planned["lower"] = len(sel3)
+    # 3b. lowerCamel message / enum names (legal; on the unchanged tree they resolve like Pascal names)
+    sel3b = bucket(base_pairs, max(1, n // 6), lambda p: gen.relation(p[0], p[1])[0])
+    for s, d in sel3b:
+        jobs.append(("isolated", "camel", sorted({s, d}), [(s, d)]))
+    planned["camel"] = len(sel3b)
     # 4. capitalised package component
     caps = [("x.Cap", "x.Cap"), ("x.Cap", "x.d"), ("x.d", "x.Cap"), ("", "Cap"), ("Cap", ""), ("Cap.a", "Cap"),
             ("Cap", "Cap.a"), ("x.Cap.y", "x.d.y"), ("x.d.y", "x.Cap.y")][: max(2, n)]
@@ -1174,7 +1179,7 @@ def check_C13(seed: int, n: int) -> dict:
             text = res["schema"].text()
             for s, d, kind, detail in res["fails"]:
                 general = kind.split(":")[0]
-                if style != "pascal":
+                if style not in ("pascal", "camel"):
                     # the naming style is the root cause; relation / exception type only vary the symptom
                     if d == "<wkt>" and general == "import-error":
                         continue
